@@ -88,15 +88,16 @@ RULES = {
 
 # ---------------------------------------------------------------------------------------------
 # KNOWN_OPEN: genuine defects of /repo on the unchanged tree.  name -> [enabled, predicate, documentation]
+# (enabled = False: fixed in /repo since — 875b43903, a7c25edf3, ccf5c2ad5 — the exclusion is off, the text is kept as a record)
 
 KNOWN_OPEN = {
-    "alias-negate-paren-literal": [True, is_negated_paren_literal,
+    "alias-negate-paren-literal": [False, is_negated_paren_literal,
         "SELECT -(1) AS x   (every aliasing context: <e> AS x, (<e>) AS x, implicit alias, WITH <e> AS x, f(<e> AS x), "
         "ARRAY JOIN <e> AS x): expected `Function negate (alias x)` / ExpressionList / `Literal UInt64_1` (as printed "
         "without the alias), actual `Literal Int64_-1 (alias x)`.  explainAliasedExpr (internal/explain/expressions.go, "
         "case *ast.UnaryExpr) folds a negated literal without the `!lit.Parenthesized` test that explainUnaryExpr has.  "
         "Fix: `if lit, ok := e.Operand.(*ast.Literal); ok && !lit.Parenthesized {`."],
-    "alias-minus-zero": [True, is_minus_zero,
+    "alias-minus-zero": [False, is_minus_zero,
         "SELECT -0 AS x: expected `Literal UInt64_0 (alias x)` (SELECT -0 prints `Literal UInt64_0`: explainUnaryExpr "
         "normalises -0), actual `Literal Int64_0 (alias x)`.  Same duplicated branch of explainAliasedExpr: it lacks the "
         "`val == 0` / `negVal == 0` normalisation.  Fix: print `Literal UInt64_0 (alias ...)` when the value is 0."],
@@ -107,12 +108,12 @@ KNOWN_OPEN = {
         "`Literal Array_[Int64_-1]` / `Literal Tuple_(Int64_-1, UInt64_1)`.  The literal-element tests of the array / "
         "tuple / IN printers accept `UnaryExpr{-, Literal}` without looking at `Literal.Parenthesized`.  Fix: require "
         "`!innerLit.Parenthesized` where a negated literal is accepted as a literal element."],
-    "create-orderby-group-nullsafe-eq": [True, lambda e: leading_group_op(e) == "<=>",
+    "create-orderby-group-nullsafe-eq": [False, lambda e: leading_group_op(e) == "<=>",
         "CREATE TABLE t (a UInt8) ENGINE = MergeTree ORDER BY (a) <=> b: parse error `unexpected token <=>` (expected "
         "Function isNotDistinctFrom(a, b), as after SELECT).  The ORDER BY branch of parseTableOptions continues after a "
         "parenthesised group only if isBinaryOperatorToken(p.current.Token), and that list (parser/expression.go) lacks "
         "token.NULL_SAFE_EQ.  Fix: add token.NULL_SAFE_EQ to isBinaryOperatorToken."],
-    "create-orderby-group-before-as-select": [True, lambda e: leading_group_op(e) is not None,
+    "create-orderby-group-before-as-select": [False, lambda e: leading_group_op(e) is not None,
         "CREATE TABLE t ENGINE = MergeTree ORDER BY (a) + b AS SELECT 1 (also CREATE MATERIALIZED VIEW ... ORDER BY (a) + b "
         "AS SELECT ...): parse error (expected: key plus(a, b), then the AS SELECT part; ORDER BY a + b AS SELECT 1 works).  "
         "The continuation after the group is parsed with parseExpressionFrom(expr, LOWEST), which takes the following "
@@ -143,7 +144,7 @@ DROPPED = {
 # the contexts.  (name, tier, template, alias?, rules, known_open)
 #   tier "A": the contexts named in the task — in the quick tier they see EVERY case;
 #   tier "B": further positions where the parser reads / the printer prints an expression — in the
-#             quick tier they see every core shape in a rotating third of its decorations (see plan()).
+#             quick tier they see every bare shape, in a rotating quarter of its decorations (see plan()).
 
 _AL = ("alias-negate-paren-literal", "alias-minus-zero")
 _KEY = ("key-group-no-continuation",)
@@ -202,7 +203,8 @@ CONTEXTS = [
     ("all_clauses", "B", "SELECT {e} FROM t PREWHERE {e} WHERE {e} GROUP BY {e} HAVING {e} ORDER BY {e} LIMIT 1 BY {e}", False, (), ()),
     ("groupby_rollup", "B", "SELECT 1 FROM t GROUP BY {e} WITH ROLLUP", False, (), ()),
     ("grouping_sets", "B", "SELECT 1 FROM t GROUP BY GROUPING SETS (({e}), (k))", False, (), ()),
-    ("rollup_cube", "B", "SELECT 1 FROM t GROUP BY ROLLUP({e}), CUBE({e})", False, (), ()),
+    ("rollup", "B", "SELECT 1 FROM t GROUP BY ROLLUP({e})", False, (), ()),
+    ("cube", "B", "SELECT 1 FROM t GROUP BY CUBE({e})", False, (), ()),
     ("fill", "B", "SELECT k FROM t ORDER BY k WITH FILL FROM {e} TO {e} STEP {e}", False, (), ()),
     ("fill_staleness", "B", "SELECT k FROM t ORDER BY k WITH FILL STALENESS {e}", False, (), ()),
     ("interpolate", "B", "SELECT k FROM t ORDER BY k WITH FILL INTERPOLATE (k AS {e})", False, (), ()),
@@ -351,22 +353,23 @@ for _c, _ops in (("OR", ("OR", "or")), ("AND", ("AND", "and")), ("CMP", ("=", "=
         OP_CLASS[_o] = _c
 
 
-def plan(mode, tag, rank):
-    """Which contexts see a case?  -> predicate on (position j of the context in CONTEXTS, context entry).
-    `tag` is the origin of the case (all_cases), `rank` the number of earlier well-formed cases of the
-    same origin kind with the same bare shape (operator tree over the six precedence classes).
+def plan(mode, tag, rank, j, ctx):
+    """Does context number j (entry ctx of CONTEXTS) see a case?
+    `tag` is the origin of the case (all_cases), `rank` the number of earlier cases of the same origin kind
+    and the same bare shape (operator tree over the six precedence classes) THAT THIS CONTEXT CAN BE FED WITH
+    (cases excluded by a rule / a KNOWN_OPEN switch of the context do not count).
     full : every context sees every case (thorough tier; the exhaustive shapes with more than 3 operators
            are not passed in at all: they stay SELECT-only).
     quick: tier A contexts see every case.  A tier B context sees
-             - every core case with at most 1 binary operator and every random case,
-             - of the core cases with 2 or 3 operators and of the spelling-pass cases: the FIRST well-formed
+             - every random case and the core cases without a binary operator,
+             - of the core cases with 1 to 3 operators and of the spelling-pass cases: the FIRST feedable
                case of every bare shape (rank 0: the least decorated one), and of the further decorations /
-               spellings of that shape a rotating third ((rank + j) mod 3 = 0).
-           So every context sees every bare shape with <= 3 operators that has a well-formed reading at
-           all, every context sees every random case, and the full product is the thorough tier."""
-    if mode == "full" or tag in ("core0", "core1", "random") or rank == 0:
-        return lambda j, ctx: True
-    return lambda j, ctx: ctx[1] == "A" or (rank + j) % 3 == 0
+               spellings of that shape a rotating quarter ((rank + j) mod 4 = 0).
+           So every context sees every bare shape with <= 3 operators that has a well-formed reading it can
+           be fed with at all, every context sees every random case, and the full product is the thorough tier."""
+    if mode == "full" or ctx[1] == "A" or tag in ("core0", "random") or rank == 0:
+        return True
+    return (rank + j) % 4 == 0
 
 
 # ---------------------------------------------------------------------------------------------
@@ -406,21 +409,25 @@ def run(cases, mode, exprdump, run_tool, keep=None, known_open_enabled=True, per
             continue
         seen.add(h)
         kind = "core" if tag.startswith("core") else tag
+        key = None if kind == "random" else (kind, bare_shape(e))
         rank = 0
-        if kind != "random":
-            key = (kind, bare_shape(e))
+        if key is not None:
             rank = ranks.get(key, 0)
             ranks[key] = rank + 1
-        pred = plan(mode, tag, rank)
         sel = []
         for j, c in enumerate(CONTEXTS):
-            if not pred(j, c):
-                continue
             x = excluded_by(c, e, known_open_enabled)
             st = stats[c[0]]
             if x is not None:
                 d = st["restricted"] if x[0] == "rule" else st["known_open"]
                 d[x[1]] = d.get(x[1], 0) + 1
+                continue
+            r = rank
+            if key is not None and (c[4] or c[5]):
+                # a context with restrictions ranks the cases it can be fed with
+                r = ranks.get((c[0], key), 0)
+                ranks[(c[0], key)] = r + 1
+            if not plan(mode, tag, r, j, c):
                 continue
             sel.append(c[0])
             st["fed"] += 1
@@ -453,7 +460,7 @@ def run(cases, mode, exprdump, run_tool, keep=None, known_open_enabled=True, per
             bad += 1
             broken_ctx.add(c[0])
             reports.append("SPEC!=CODE  %s   [context %s: CALIBRATION %s, %d hole line(s), annotations %s; expected %d hole(s)%s]\n"
-                           "--- code\n%s\n--- spec\nIdentifier %s%s\n"
+                           "--- code\ncalibration status: %s\n--- spec\nIdentifier %s%s\n"
                            % (statement(c[2], SENTINEL), c[0], st, holes, sfx, c[2].count("{e}"),
                               " with the annotation ` (alias x)`" if c[3] else "", st, SENTINEL, " (alias x)" if c[3] else ""))
     assert len(body) == len(fed), (len(body), len(fed))
@@ -501,9 +508,9 @@ def run(cases, mode, exprdump, run_tool, keep=None, known_open_enabled=True, per
             else:
                 full_text = _unhex(full)
             if r in ("ERR", "PANIC", "FRAME", "UNCALIBRATED"):
-                code_text = {"ERR": "ERR (the statement does not parse)", "PANIC": "PANIC",
-                             "FRAME": "FRAME (the EXPLAIN text outside the hole differs from the calibrated frame of the context)",
-                             "UNCALIBRATED": "UNCALIBRATED"}[r] + "\n"
+                code_text = {"ERR": "the statement does not parse (to exactly one statement)", "PANIC": "the parser / printer panics",
+                             "FRAME": "frame mismatch: the EXPLAIN text outside the hole differs from the calibrated frame of the context",
+                             "UNCALIBRATED": "the context could not be calibrated"}[r] + "\n"
             else:
                 parts = []
                 for i, y in enumerate(r.split(",")):
